@@ -1042,7 +1042,20 @@ func (fr *Frame) spawnPre(st *State, x *ssa.Go, gargs []Val) {
 		}
 	}
 	for i, r := range fc.Requires {
-		g := fr.evalBool(sc, r.E)
+		g := func() (g Term) {
+			// a precondition that can no longer be stated here (it names a variable the goroutine
+			// no longer captures) is an obligation that fails, not a tool error
+			defer func() {
+				if e := recover(); e != nil {
+					if _, ok := e.(contractErr); ok {
+						g = False
+						return
+					}
+					panic(e)
+				}
+			}()
+			return fr.evalBool(sc, r.E)
+		}()
 		fr.oblige(st, "spawn-pre", shortKey(fc.Key)+"."+clauseName(r, i), g, r, x.Pos())
 	}
 }
